@@ -40,8 +40,9 @@ Definition sm_lower (m : smap) : smap := map (fun e => (fst e, (fst e, snd (snd 
 Definition sm_update (m : smap) (kvs : list (K * V)) : smap :=
   fold_left (fun acc p => sm_set acc (fst p) (snd p)) kvs m.
 
-(* one operation on the reference map.  dflt = Some d0 for the defaulting variant: a lookup of an
-   absent key yields d0 and does not insert; everything else is as for the plain map.
+(* one operation on the reference map.  dflt = Some d0 for the defaulting variant: a lookup -- c[k] or
+   c.get(k, d) -- of an absent key yields d0 ("its default") and does not insert; everything else,
+   setdefault included, is as for the plain map.
    popitem removes the FIRST item (the property does not fix which; this is collections.abc's choice). *)
 Definition spec_step (dflt : option V) (m : smap) (o : op K V) : smap * eres (ret K V) :=
   match o with
@@ -55,9 +56,10 @@ Definition spec_step (dflt : option V) (m : smap) (o : op K V) : smap * eres (re
   | ODel k => if sm_has m k then (sm_drop (lower k) m, EOk RNone) else (m, EExn KeyError)
   | OContains k => (m, EOk (RBool (sm_has m k)))
   | OGetD k d =>
-    (m, match sm_get m k with
-        | Some v => EOk (RVal v)
-        | None => EOk (match d with Some x => RVal x | None => RNone end)
+    (m, match sm_get m k, dflt with
+        | Some v, _ => EOk (RVal v)
+        | None, Some d0 => EOk (RVal d0)
+        | None, None => EOk (match d with Some x => RVal x | None => RNone end)
         end)
   | OPop k d =>
     match sm_get m k with
@@ -99,27 +101,6 @@ Fixpoint spec_state (dflt : option V) (m : smap) (ops : list (op K V)) : smap :=
   | [] => m
   | o :: r => spec_state dflt (fst (spec_step dflt m o)) r
   end.
-
-(* What CaseInsensitiveDefaultDict does where it departs from the reference map with default d0 (see
-   notes/C13.md): get(k, d) and setdefault(k, x) of an absent key yield d0 and do not insert; pop of an
-   absent key raises KeyError even when a default is given.  lower() is not described here (finding C13-F1). *)
-Definition dspec_step (d0 : V) (m : smap) (o : op K V) : smap * eres (ret K V) :=
-  match o with
-  | OGetD k d => (m, match sm_get m k with Some v => EOk (RVal v) | None => EOk (RVal d0) end)
-  | OSetdefault k d => (m, match sm_get m k with Some v => EOk (RVal v) | None => EOk (RVal d0) end)
-  | OPop k d =>
-    match sm_get m k with
-    | Some v => (sm_drop (lower k) m, EOk (RVal v))
-    | None => (m, EExn KeyError)
-    end
-  | _ => spec_step (Some d0) m o
-  end.
-Fixpoint dspec_run (d0 : V) (probes : list K) (m : smap) (ops : list (op K V)) : list (eres (ret K V) * obs K V) :=
-  match ops with
-  | [] => []
-  | o :: r => let (m', x) := dspec_step d0 m o in (x, spec_observe (Some d0) probes m') :: dspec_run d0 probes m' r
-  end.
-Definition is_lower_op (o : op K V) : bool := match o with OLower => true | _ => false end.
 
 (* ---- the set: lower-cased key -> last written spelling *)
 Definition sset := list (K * K).
